@@ -35,8 +35,22 @@ RULE = ('certificate hierarchies of chain length 1..4 built with the real securi
         'the description; '
         'histories: up to 3 instances (different anchors / schemas / explicit or default storage) x up to 3 packets in '
         'sampled (quick) or all (thorough) orders; one instance validating packets of ONE key whose KeyLocators name different '
-        'certificates of it (other version / issuer id; the second one valid, missing, Nack, forged or wrongly signed).  non-trivial = at least one validation that needs a certificate '
-        'fetch or a constructor decision; distinct by (scenario tag, key types, order)')
+        'certificates of it (other version / issuer id; the second one valid, missing, Nack, forged or wrongly signed); '
+        'validations that OVERLAP IN TIME: 2-4 validations in flight on one instance (and on 2-3 instances sharing the NDNApp: '
+        'same configuration / other anchor / other or no schema) whose chains share certificates the instance has not cached '
+        '(same signer x2 / x3, the same packet twice, sibling signers meeting at the parent, signer and parent, the '
+        'certificate itself validated as a packet, next to forged / wrong-key / schema-denied packets and packets whose '
+        'certificate is silent / Nack / NetworkError; one deviation of the single-deviation table above two packets of '
+        'one signer; certificate loops next to each other), chain length 1..3, the face holds every answer back and the '
+        'schedule is an explicit list of events start(instance, packet) / deliver(certificate name: one Data or Nack '
+        'answers every pending Interest of that name) / expire(the Interests nobody answers time out), the loop run to '
+        'quiescence between events: strictly sequential, the choice tree in depth-first order from "everything started '
+        'before anything arrives" (thorough: the whole tree up to 150 schedules per scenario, exhausted for most) and random '
+        'schedules; per schedule the extracted concurrent model (Model/ValidatorConc.v) must give the same verdict / exception '
+        'class / Interests per validation, the same outstanding Interests after every event and the same key storage, '
+        'and the oracle demands accept <-> chain for every finished validation, a verdict for every finite chain and ONE '
+        'verdict per (configuration, packet) over all schedules.  non-trivial = at least one validation that needs a certificate '
+        'fetch or a constructor decision; distinct by (scenario tag, key types, order / schedule)')
 ASSUMPTIONS = [
     'signature verification and key import are oracles: the model receives the results of the real '
     'known_key_validator.verify_* / Cryptodome import_key for every (key, packet) pair it can ask about',
@@ -44,9 +58,15 @@ ASSUMPTIONS = [
     'NDNApp.express_interest delivers a Data only for the exact requested name (C03/C05); names are compared component-wise '
     '(MemoryKeyStorage keys on Name.to_bytes, injective on well-formed names: C09_wire_roundtrip)',
     'the retrievable-certificate world is fixed during a history',
+    'overlapping validations: answers reach the application only through the harness events deliver / expire, the loop is run to '
+    'quiescence between two events (virtual clock), so the event list is the linearisation; NDNApp wakes the validations that wait '
+    'for one name in the order in which their Interests were expressed (model: CDeliver; cross-checked by comparing the outstanding '
+    'Interests after every event); an Interest is left to time out only if the world has no answer for its name; a NetworkError '
+    'of face.send does not suspend the validation',
 ]
 
 FUEL = 12          # certificate fetches allowed inside ONE validation before the run is cut off ("no verdict")
+WATCHDOG = 600.0   # virtual seconds after which a validation that neither answers nor fetches is given up ("hang")
 
 LVS_MAIN = r'''
 #KEY: "KEY"/_/_/_
@@ -469,11 +489,15 @@ def run_impl(env, world, ops):
                 p = world.parse(op[2])
                 face.begin()
                 try:
-                    r = await insts[op[1]](p['fname'], p['ptrs'])
+                    # watchdog on the virtual clock: a validator that waits for something nobody will ever provide
+                    # (no Interest outstanding, no timer) must end the history, not hang the harness
+                    r = await asyncio.wait_for(insts[op[1]](p['fname'], p['ptrs']), WATCHDOG)
                     obs.append(('val', 'ok', 1 if r else 0, list(face.sent)))
+                except TimeoutError:
+                    obs.append(('val', 'hang', None, list(face.sent)))
                 except Diverged:
                     obs.append(('val', 'fuel', None, list(face.sent)))
-                except Exception as e:   # noqa
+                except (Exception, asyncio.CancelledError) as e:   # noqa  (awaiting a cancelled future raises CancelledError)
                     obs.append(('val', 'err', exc_code(e), list(face.sent), type(e).__name__))
     try:
         loop.run_until_complete(go())
@@ -623,13 +647,16 @@ def check_history(ctx, env, world, ops, tag, legacy=False):
             ctx.violation(site, 'accepts-without-chain', 'packet accepted although no valid chain to the anchor exists', case)
         if chain is True and not accepted:
             ctx.violation(site, 'rejects-with-chain', f'packet with a valid chain not accepted ({ob[1]} {ob[2]})', case)
-        if ob[1] == 'fuel':
+        if ob[1] == 'hang' and chain is not None:
+            ctx.violation(site, 'no-verdict-finite-chain',
+                          'the validation neither answers nor has a certificate Interest outstanding (virtual-time watchdog)', case)
+        if ob[1] == 'fuel' or (ob[1] == 'hang' and chain is None):
             ctx.violation('CascadeChecker.validate', 'no-verdict-certificate-loop',
                           'certificates that name each other as signers: the validator keeps fetching and never answers', case)
         elif ob[1] == 'err':
             ctx.stat(f'verdict-by-exception:{ob[4]}')
         key = (kind, sid, world.pkts[anchor], op[2])
-        if ob[1] != 'fuel':
+        if ob[1] not in ('fuel', 'hang'):
             if key in verdicts and verdicts[key] != accepted:
                 ctx.violation(site, 'verdict-depends-on-history',
                               'same schema, anchor, packet and certificates: different verdicts at different points of the history', case)
@@ -1131,8 +1158,452 @@ def gen_same_key(ctx, env):
                          sample={'tag': tag, 'obs': [o[:3] for o in impl]})
 
 
+# ------------------------------------------------------------------------------------------------
+# Validations that OVERLAP IN TIME on one instance.  The face holds every answer back until the schedule says
+# "deliver <name>" (the real NDNApp then satisfies every pending Interest of that name at once) or "expire" (the
+# Interests nobody answers time out); between two events the loop runs to quiescence, so the schedule IS the
+# linearisation.  Model: Model/ValidatorConc.v (request 4); theorems C14_concurrent_iff / C14_schedule_independent.
+MAX_EVENTS = 26
+
+
+class ConcFace:
+    running = True
+
+    def __init__(self, world, loop):
+        self.world, self.loop = world, loop
+        self.app = None
+        self.tid_of = {}        # asyncio task -> thread id (a validation and everything it awaits is ONE task)
+        self.sent = {}          # tid -> names of the certificate Interests it expressed
+        self.pending = []       # [tid, name bytes] in the order expressed; one outstanding Interest per thread
+        self.flag_errors = []
+
+    def send(self, wire):
+        from ndn.encoding import parse_interest, Name
+        from ndn.types import NetworkError
+        name, param, _, _ = parse_interest(wire)
+        tid = self.tid_of.get(asyncio.current_task(), -1)
+        nb = Name.to_bytes(name)
+        self.sent.setdefault(tid, []).append([bytes(c) for c in name])
+        if not param.must_be_fresh or param.can_be_prefix:
+            self.flag_errors.append((bool(param.must_be_fresh), bool(param.can_be_prefix)))
+        r = self.world.store.get(nb)
+        if r is not None and r[0] == 'fail':
+            raise NetworkError('injected')
+        self.pending = [e for e in self.pending if e[0] != tid] + [[tid, nb]]
+
+
+def run_conc_impl(env, world, ctors, threads, choose=None, script=None, own_storage=True):
+    """The instances of [ctors] on ONE NDNApp; the validations threads = [(instance, pid)] are started in that order,
+    answers are delivered as the schedule says.  choose(step, enabled events) -> index, or script = the exact list
+    of events ('start', instance, pid) | ('deliver', name bytes) | ('expire',).  Returns the observations."""
+    from ndn.app import NDNApp
+    from ndn.encoding import Name, TypeNumber
+    from ndn.app_support.light_versec import lvs_validator
+    from ndn.security.validator.cascade_validator import CascadeChecker, MemoryKeyStorage
+    loop = vtloop.new_loop()
+    face = ConcFace(world, loop)
+    app = NDNApp(face=face, keychain=object())
+    face.app = app
+    out = {'new': ('ok',), 'events': [], 'widths': [], 'queues': [], 'threads': [], 'caches': None}
+    storages = [MemoryKeyStorage() for _ in ctors] if own_storage else None
+    results, tasks, started, vs = {}, [], [], []
+    closing = False
+    try:
+        try:
+            for i, ctor in enumerate(ctors):
+                extra = [storages[i]] if own_storage else []
+                if ctor[0] == 'lvs':
+                    vs.append(lvs_validator(env.schemas[ctor[1]], app, world.pkts[ctor[-2]], *extra))
+                else:
+                    vs.append(CascadeChecker(app, world.pkts[ctor[-2]], *extra))
+        except Exception as e:   # noqa
+            out['new'] = ('err', exc_code(e), type(e).__name__)
+            return out
+
+        async def runner(tid, inst, pid):
+            p = world.parse(pid)
+            try:
+                r = await vs[inst](p['fname'], p['ptrs'])
+                results[tid] = ('ok', 1 if r else 0)
+            except Exception as e:   # noqa  (an exception is an observation, not a harness failure)
+                results[tid] = ('err', exc_code(e), type(e).__name__)
+            except asyncio.CancelledError as e:
+                if not closing:         # not our clean-up: the validator awaited something that had been cancelled
+                    results[tid] = ('err', exc_code(e), type(e).__name__)
+                raise
+
+        for step in range(len(script) if script is not None else MAX_EVENTS):
+            if script is not None:
+                ev = tuple(script[step])
+            else:
+                enabled = []
+                if len(tasks) < len(threads):
+                    enabled.append(('start',) + tuple(threads[len(tasks)]))
+                names = []
+                for _, nb in face.pending:
+                    if nb not in names:
+                        names.append(nb)
+                live = [nb for nb in names if world.store.get(nb) is not None]
+                enabled += [('deliver', nb) for nb in live]
+                if names and not live:
+                    enabled.append(('expire',))      # only Interests that nobody will ever answer are left
+                if not enabled:
+                    break
+                out['widths'].append(len(enabled))
+                ev = enabled[choose(step, enabled)]
+            if ev[0] == 'start':
+                if ev[1] < len(vs):
+                    t = loop.create_task(runner(len(tasks), ev[1], ev[2]))
+                    face.tid_of[t] = len(tasks)
+                    tasks.append(t)
+                    started.append((ev[1], ev[2]))
+                    loop.settle(200)
+            elif ev[0] == 'deliver':
+                nb = bytes(ev[1])
+                r = world.store.get(nb)
+                if r is not None and r[0] in ('data', 'nack'):
+                    face.pending = [e for e in face.pending if e[1] != nb]
+                    if r[0] == 'data':
+                        loop.create_task(app._receive(TypeNumber.DATA, world.pkts[r[1]]))
+                    else:
+                        app._on_nack(Name.from_bytes(nb), 150)
+                    loop.settle(200)
+            else:
+                face.pending = [e for e in face.pending if world.store.get(e[1]) is not None]
+                loop.advance_to(loop.time() + 4.5)
+            out['events'].append(ev)
+            out['queues'].append([[tid, [bytes(c) for c in Name.from_bytes(nb)]] for tid, nb in face.pending])
+        waiting = {tid: nb for tid, nb in face.pending}
+        for tid in range(len(tasks)):
+            if tid in results:
+                st = results[tid]
+            elif tid in waiting:
+                st = ('wait', [bytes(c) for c in Name.from_bytes(waiting[tid])])
+            else:
+                st = ('stuck',)
+            out['threads'].append((started[tid][0], started[tid][1], st, face.sent.get(tid, [])))
+        if own_storage and all(isinstance(getattr(x, '_cache', None), dict) for x in storages):
+            out['caches'] = [sorted((tuple(bytes(c) for c in Name.from_bytes(k)), bytes(kb))
+                                    for k, kb in x._cache.items()) for x in storages]
+        out['flag_errors'] = face.flag_errors
+        out['stray'] = face.sent.get(-1, [])
+    finally:
+        closing = True
+        for t in asyncio.all_tasks(loop):
+            t.cancel()
+        loop.settle()
+        loop.close()
+        asyncio.set_event_loop(None)
+    return out
+
+
+def norm_conc_model(m):
+    """model answer of request 4 -> (queues, threads, cache) in the shape of run_conc_impl (thread ids local)"""
+    queues = [[[q[0], [bytes(c) for c in (q[1] or [])]] for q in qs] for qs in m[1]]
+    threads = []
+    for pid, st, sent in m[2][0]:
+        if st[0] == 0:
+            r = st[1]
+            o = ('ok', r[1]) if r[0] == 1 else ('err', r[1])
+        elif st[0] == 1:
+            o = ('wait', [bytes(c) for c in st[1]])
+        else:
+            o = ('stuck',)
+        threads.append((pid, o, [[bytes(c) for c in n] for n in sent]))
+    cache = sorted((tuple(bytes(c) for c in n), bytes(k)) for n, k in m[2][2])
+    return queues, threads, cache
+
+
+class ConcScenario:
+    """world + instances + the packets validated at overlapping times; tables and chain verdicts computed once.
+    The model (one instance, one key storage: Model/ValidatorConc.v) is run once per instance on that instance's
+    starts and on every delivery / expiry; instances share nothing but the NDNApp."""
+    _uid = [0]
+
+    def __init__(self, ctx, env, world, ctors, threads, tag):
+        self.ctx, self.env, self.world, self.tag = ctx, env, world, tag
+        self.ctors = [tuple(c) for c in ctors]
+        self.threads = [tuple(t) for t in threads]
+        self.schema_ids = sorted({c[1] for c in self.ctors if c[0] == 'lvs'})
+        self.W, self.S = world.tables(sorted({c[-2] for c in self.ctors}), self.schema_ids)
+        self.ctor_model = model_ops(world, self.ctors, self.schema_ids)
+        self.trust, self.cfgid = [], []
+        for c in self.ctors:
+            a = world.parse(c[-2])
+            self.trust.append([a['name'], a['content'][0] if a['content'] else b'',
+                               [] if c[0] == 'cascade' else [self.S[self.schema_ids.index(c[1])][3]]])
+            self.cfgid.append((c[0], c[1] if c[0] == 'lvs' else None, world.pkts[c[-2]]))
+        self.chain = {}
+        self.verdicts = {}          # (trust configuration, pid) -> accepted?, over every schedule of this scenario
+        self.seen = set()
+        ConcScenario._uid[0] += 1
+        self.uid = ConcScenario._uid[0]
+
+    def site(self, inst):
+        return 'lvs_validator' if self.ctors[inst][0] == 'lvs' else 'CascadeChecker.validate'
+
+    def has_chain(self, inst, pid):
+        k = (self.cfgid[inst], pid)
+        if k not in self.chain:
+            ch = self.ctx.call([2, 64, self.W, self.trust[inst], pid])
+            self.chain[k] = None if ch == [] else bool(ch[0])
+        return self.chain[k]
+
+    def case(self, impl):
+        return {'kind': 'concurrent', 'tag': self.tag, 'ctors': [list(c) for c in self.ctors],
+                'threads': [list(t) for t in self.threads],
+                'events': [list(e) for e in impl['events']], 'pkts': self.world.pkts,
+                'store': {k.hex(): list(v) for k, v in self.world.store.items()},
+                'observed': [(inst, pid, st[:2]) for inst, pid, st, _ in impl['threads']]}
+
+    def correspondence(self, impl, case):
+        from ndn.encoding import Name
+        ctx = self.ctx
+        for inst in range(len(self.ctors)):
+            local = [tid for tid, th in enumerate(impl['threads']) if th[0] == inst]
+            evs, keep = [], []
+            for g, ev in enumerate(impl['events']):
+                if ev[0] == 'start':
+                    if ev[1] != inst:
+                        continue
+                    evs.append([0, ev[2]])
+                elif ev[0] == 'deliver':
+                    evs.append([2, [bytes(c) for c in Name.from_bytes(bytes(ev[1]))]])
+                else:
+                    evs.append([3])
+                keep.append(g)
+            m = ctx.call([4, self.W, self.S, self.ctor_model[inst], evs])
+            if is_err(m) or m[0] != 1:
+                ctx.disagree('concurrent', 'model rejected the request / the constructor', case, m, impl['new'])
+                continue
+            mq, mt, mc = norm_conc_model(m)
+            it = [(impl['threads'][tid][1], impl['threads'][tid][2][:2], impl['threads'][tid][3]) for tid in local]
+            iq = [[[local.index(tid), n] for tid, n in impl['queues'][g] if tid in local] for g in keep]
+            if mt != it:
+                k = next((i for i, (x, y) in enumerate(zip(mt, it)) if x != y), None)
+                ctx.disagree('concurrent-validate', f'instance {inst}, its validation #{k}: verdict / exception class / '
+                             'Interests sent differ', case, mt, it)
+            elif mq != iq:
+                k = next((i for i, (x, y) in enumerate(zip(mq, iq)) if x != y), None)
+                ctx.disagree('concurrent-pending', f'instance {inst}: outstanding certificate Interests after its event '
+                             f'#{k} differ', case, mq, iq)
+            elif impl['caches'] is not None and mc != impl['caches'][inst]:
+                ctx.disagree('concurrent-storage', f'instance {inst}: key storage after the schedule differs', case,
+                             mc, impl['caches'][inst])
+
+    def check(self, impl, complete):
+        """correspondence with the model on the schedule that was run, then the specification oracle"""
+        ctx = self.ctx
+        case = self.case(impl)
+        if impl['new'][0] != 'ok':
+            ctx.disagree('constructor', 'a validator with a good anchor could not be built', case, ('new', 'ok'), impl['new'])
+            return
+        self.correspondence(impl, case)
+        if impl['flag_errors']:
+            ctx.disagree('cert-interest-flags', 'certificate Interest is not (MustBeFresh, not CanBePrefix)', case,
+                         [1, 0], impl['flag_errors'][0])
+        if impl['stray']:
+            ctx.disagree('concurrent', 'an Interest was expressed outside the validations', case, [], impl['stray'])
+        # ---- direct oracle -----------------------------------------------------------------------------
+        for tid, (inst, pid, st, sent) in enumerate(impl['threads']):
+            chain = self.has_chain(inst, pid)
+            done = st[0] in ('ok', 'err')
+            accepted = st[0] == 'ok' and st[1] == 1
+            site = self.site(inst)
+            if accepted and chain is not True:
+                ctx.violation(site, 'accepts-without-chain',
+                              'packet accepted (while other validations were in flight) although no valid chain to the anchor exists', case)
+            if chain is True and done and not accepted:
+                ctx.violation(site, 'rejects-with-chain',
+                              f'validation #{tid} of a packet with a valid, retrievable chain was not accepted ({st[0]} {st[1]}) '
+                              'while other validations were in flight', case)
+            if not done:
+                if chain is None:
+                    ctx.violation('CascadeChecker.validate', 'no-verdict-certificate-loop',
+                                  'certificates that name each other as signers: the validator keeps fetching and never answers', case)
+                elif complete:
+                    ctx.violation(site, 'no-verdict-finite-chain',
+                                  f'validation #{tid}: every certificate Interest was answered or timed out, still no verdict', case)
+            elif st[0] == 'err':
+                ctx.stat(f'verdict-by-exception:{st[2]}')
+            if done:
+                k = (self.cfgid[inst], pid)
+                if k in self.verdicts and self.verdicts[k] != accepted:
+                    ctx.violation(site, 'verdict-depends-on-interleaving',
+                                  'same schema, anchor, packet and retrievable certificates: the verdict differs with what else '
+                                  'is in flight / the order in which certificates arrive', case)
+                self.verdicts.setdefault(k, accepted)
+
+    def run_one(self, choose, own_storage=True):
+        impl = run_conc_impl(self.env, self.world, self.ctors, self.threads, choose=choose, own_storage=own_storage)
+        key = tuple(tuple(e) for e in impl['events'])
+        if key in self.seen:
+            return impl, False
+        self.seen.add(key)
+        complete = len(impl['events']) < MAX_EVENTS
+        self.check(impl, complete)
+        n_overlap = max([len(q) for q in impl['queues']] + [0])
+        self.ctx.case((self.tag, self.uid, key), nontrivial=n_overlap >= 1, stratum=f'conc:{self.tag.split(":")[1]}',
+                      sample={'tag': self.tag, 'events': [e[0] for e in impl['events']],
+                              'obs': [(inst, pid, st[:2]) for inst, pid, st, _ in impl['threads']]})
+        self.ctx.stat(f'conc-max-outstanding:{min(n_overlap, 4)}')
+        shared = max([max([sum(1 for x in q if x[1] == y[1]) for y in q] + [0]) for q in impl['queues']] + [0])
+        self.ctx.stat(f'conc-max-waiting-for-one-certificate:{min(shared, 4)}')
+        return impl, True
+
+    def explore(self, rng, n_random, dfs_limit):
+        """schedules: one after another; the choice tree in depth-first order (first branch = everything started
+        before anything arrives) up to dfs_limit; n_random random ones"""
+        self.run_one(lambda step, en: 1 if en[0][0] == 'start' and len(en) > 1 else 0, own_storage=False)
+        prefix, n = [], 0
+        while n < dfs_limit:
+            impl, _ = self.run_one(lambda step, en: prefix[step] if step < len(prefix) else 0)
+            n += 1
+            widths = impl['widths']
+            choices = prefix[:len(widths)] + [0] * (len(widths) - len(prefix))
+            i = len(widths) - 1
+            while i >= 0 and choices[i] + 1 >= widths[i]:
+                i -= 1
+            if i < 0:
+                self.ctx.stat('conc-choice-tree-exhausted')
+                break
+            prefix = choices[:i] + [choices[i] + 1]
+        for _ in range(n_random):
+            r = random.Random(rng.getrandbits(32))
+            self.run_one(lambda step, en: r.randrange(len(en)), own_storage=r.random() < 0.8)
+
+
+def alt_leaf(h, depth, k):
+    """another packet name of the zone that the level-[depth] key may sign"""
+    return ['/lvs/notice/n%d', '/lvs/memo/alice/m%d', '/lvs/article/bob/p%d', '/lvs/note/carol/t%d'][depth] % k
+
+
+def conc_pool(env, rng, h, depth):
+    """the chain of [h] down to [depth] and packets whose chains share its certificates: same signer, the signer's
+    parent, a sibling certificate issued by the same parent, the signer's certificate itself as a packet; and
+    packets that must be refused whatever else is in flight"""
+    w, anchor, chain = base_world(env, h, depth)
+    lv, up = LEVELS[depth], LEVELS[depth - 1]
+    signer = env.signer(h.key[lv], h.names[lv])
+    upsigner = env.signer(h.key[up], h.names[up])
+    good, bad = {}, {}
+    good['leaf'] = chain[0]
+    good['same-signer'] = w.add(env.data(alt_leaf(h, depth, 2), b'second', signer))
+    good['same-signer-3'] = w.add(env.data(alt_leaf(h, depth, 3), b'third', signer))
+    good['parent-signer'] = w.add(env.data(h.leaf_name(depth - 1), b'upper', upsigner))
+    good['cert-as-packet'] = chain[1]
+    who = {'admin': 'dave', 'author': 'erin', 'editor': 'fred'}[lv]
+    k2 = other_key(env, rng, h)
+    issuer = h.kid['root'] if up == 'root' else h.who[up]
+    n2, c2 = env.cert(f'/lvs/{lv}/{who}/KEY/ks', issuer, 1, k2[2], upsigner)
+    w.serve(n2, w.add(c2))
+    sib = env.signer(k2, n2)
+    good['sibling-signer'] = w.add(env.data({1: '/lvs/memo/dave/m1', 2: '/lvs/article/erin/p1',
+                                             3: '/lvs/note/fred/t1'}[depth], b'sibling', sib))
+    bad['forged'] = w.add(env.data(alt_leaf(h, depth, 4), b'forged', TweakSigner(signer, flip_sig=True)))
+    k3 = other_key(env, rng, h, h.key[lv][0])
+    bad['wrong-key'] = w.add(env.data(alt_leaf(h, depth, 5), b'wrong key', env.signer(k3, h.names[lv])))
+    bad['schema-denied'] = w.add(env.data(alt_leaf(h, depth, 6), b'denied', sib))
+    for i, fate in enumerate(('silent', 'nack', 'neterr')):
+        nm = env.cert_name(h.key_name(lv), h.issuer_comp(lv), 7 + i)
+        if fate != 'silent':
+            w.respond(nm, 'nack' if fate == 'nack' else 'fail')
+        bad['cert-' + fate] = w.add(env.data(alt_leaf(h, depth, 7 + i), b'no cert', env.signer(h.key[lv], nm)))
+    return w, anchor, good, bad
+
+
+CONC_SHAPES = [
+    # threads (names of the pool); the first two always meet at an uncached certificate
+    ('same-signer', ['leaf', 'same-signer']),
+    ('same-signer-x3', ['leaf', 'same-signer', 'same-signer-3']),
+    ('same-packet-twice', ['leaf', 'leaf']),
+    ('meets-at-parent', ['leaf', 'sibling-signer']),
+    ('signer-and-parent', ['leaf', 'parent-signer']),
+    ('parent-first', ['parent-signer', 'leaf', 'sibling-signer']),
+    ('cert-as-packet', ['leaf', 'cert-as-packet']),
+    ('cert-first', ['cert-as-packet', 'same-signer', 'leaf']),
+    ('with-forged', ['leaf', 'forged', 'same-signer']),
+    ('with-wrong-key', ['wrong-key', 'leaf']),
+    ('with-schema-denied', ['schema-denied', 'leaf', 'sibling-signer']),
+    ('with-silent-cert', ['cert-silent', 'leaf', 'same-signer']),
+    ('with-nack-cert', ['leaf', 'cert-nack', 'same-signer']),
+    ('with-neterr-cert', ['cert-neterr', 'leaf', 'same-signer']),
+    ('all-bad', ['forged', 'cert-silent', 'cert-nack']),
+    ('family', ['leaf', 'sibling-signer', 'parent-signer', 'same-signer']),
+]
+CONC_DEVIATIONS = ['forged-sig', 'tampered', 'missing', 'nack', 'neterr', 'subst-key-same', 'subst-key-empty',
+                   'attacker-cert', 'no-siginfo', 'sigtype-hmac', 'schema-denied']
+
+
+def gen_concurrent(ctx, env):
+    """ONE instance, 2-4 validations in flight at the same time whose chains share certificates that the instance
+    has not cached yet, over every interleaving of "validation k starts" / "the answer for certificate c arrives" /
+    "the unanswered Interests time out" (thorough: the whole choice tree; quick: maximal overlap, no overlap, the
+    first branches of the tree and random schedules)."""
+    rng = ctx.rng
+    n_random, dfs_limit = ctx.n(3, 10), ctx.n(3, 150)
+    # (a) intact hierarchy, every sharing shape x chain length x validator kind
+    for rnd in range(ctx.n(1, 2)):
+        for si, (shape, names) in enumerate(CONC_SHAPES):
+            for depth in (1, 2, 3):
+                if not ctx.thorough and (si + depth + rnd) % 3 and shape not in ('same-signer', 'meets-at-parent'):
+                    continue
+                h = Hier(env, rng)
+                w, anchor, good, bad = conc_pool(env, rng, h, depth)
+                pool = dict(good, **bad)
+                kind = 'cascade' if (si + depth + rnd) % 4 == 0 else 'lvs'
+                ctor = ('lvs', 0, anchor, None) if kind == 'lvs' else ('cascade', anchor, None)
+                tag = f'conc:{shape}:d{depth}:{kind}:' + ''.join(k[0] for k in h.ktypes[:depth + 1])
+                ConcScenario(ctx, env, w, [ctor], [(0, pool[n]) for n in names], tag).explore(rng, n_random, dfs_limit)
+    # (b) one deviation somewhere above two packets of one signer: both must be refused, in every interleaving
+    for rnd in range(ctx.n(1, 2)):
+        for di, dev in enumerate(CONC_DEVIATIONS):
+            for depth in (2, 3):
+                for link in range(1, depth + 1):
+                    if not ctx.thorough and (di + depth + link + rnd) % 4:
+                        continue
+                    h = Hier(env, rng)
+                    r = deviate(env, rng, h, depth, link, dev)
+                    if r is None:
+                        continue
+                    w, anchor, leaf = r
+                    lv = LEVELS[depth]
+                    second = w.add(env.data(alt_leaf(h, depth, 2), b'second', env.signer(h.key[lv], h.names[lv])))
+                    tag = f'conc:deviation-{dev}:d{depth}:l{link}'
+                    ConcScenario(ctx, env, w, [('lvs', 0, anchor, None)], [(0, leaf), (0, second), (0, leaf)], tag
+                                 ).explore(rng, ctx.n(2, 6), ctx.n(2, 60))
+    # (d) several instances on one NDNApp, validating at the same time: one Data answers the Interests of all of
+    #     them; same configuration (must agree), other anchor (must refuse what the first accepts), other schema / none
+    for rnd in range(ctx.n(1, 3)):
+        for depth in (1, 2, 3):
+            if not ctx.thorough and depth != 1 + (rnd + ctx.seed) % 3 and depth != 2:
+                continue
+            h = Hier(env, rng, rid='r')
+            h2 = Hier(env, rng, rid='q')
+            w, a1, good, bad = conc_pool(env, rng, h, depth)
+            a2 = w.add(h2.build_cert('root'))
+            n2 = w.add(env.data('/lvs/notice/n2', b'other root', env.signer(h2.key['root'], h2.names['root'])))
+            for mode, ctors, threads in (
+                    ('twins', [('lvs', 0, a1, None), ('lvs', 0, a1, None)],
+                     [(0, good['leaf']), (1, good['leaf']), (0, good['same-signer']), (1, good['sibling-signer'])]),
+                    ('two-anchors', [('lvs', 0, a1, None), ('lvs', 0, a2, None)],
+                     [(1, good['leaf']), (0, good['leaf']), (1, n2), (0, good['same-signer'])]),
+                    ('schema-strict-none', [('lvs', 0, a1, None), ('cascade', a1, None), ('lvs', 1, a1, None)],
+                     [(0, good['leaf']), (2, good['leaf']), (1, bad['schema-denied']), (0, bad['schema-denied'])])):
+                tag = f'conc:instances-{mode}:d{depth}'
+                ConcScenario(ctx, env, w, ctors, threads, tag).explore(rng, ctx.n(2, 10), ctx.n(3, 120))
+    # (c) certificate loops next to each other (the known no-verdict finding must not spread to anything else)
+    for rnd in range(ctx.n(1, 3)):
+        for variant, w, anchor, leaf in loop_worlds(env, rng):
+            for kind in ('cascade', 'lvs'):
+                ctor = ('cascade', anchor, None) if kind == 'cascade' else ('lvs', 2, anchor, None)
+                tag = f'conc:loop-{variant}:{kind}'
+                ConcScenario(ctx, env, w, [ctor], [(0, leaf), (0, leaf)], tag).explore(rng, ctx.n(1, 6), ctx.n(1, 12))
+
+
 def run(ctx):
     env = Env(ctx)
+    gen_concurrent(ctx, env)
     gen_same_key(ctx, env)
     gen_anchors(ctx, env)
     gen_roots(ctx, env)
@@ -1158,6 +1629,14 @@ def replay(ctx, data):
     w = World(env)
     w.pkts = [bytes(x) for x in case['pkts']]
     w.store = {bytes.fromhex(k): tuple(v) for k, v in case['store'].items()}
+    if case.get('kind') == 'concurrent':
+        sc = ConcScenario(ctx, env, w, [tuple(c) for c in case['ctors']], case['threads'], case['tag'])
+        events = [tuple(e) for e in case['events']]
+        impl = run_conc_impl(env, w, sc.ctors, sc.threads, script=events)
+        sc.check(impl, len(events) < MAX_EVENTS)
+        ctx.case(('replay', case['tag']), nontrivial=True, sample={'tag': case['tag']})
+        print('replayed', case['tag'], [e[0] for e in events], [(i, pid, st[:2]) for i, pid, st, _ in impl['threads']])
+        return
     ops = [tuple(tuple(x) if isinstance(x, list) else x for x in o) for o in case['ops']]
     impl = check_history(ctx, env, w, ops, case['tag'])
     ctx.case(('replay', case['tag']), nontrivial=True, sample={'tag': case['tag'], 'obs': [o[:3] for o in impl]})
